@@ -37,11 +37,13 @@ class Hooks:
 
 
 def _merge_one(args):
-    dtvecs, events, groups, ep = args
-    # dtvecs: per market tuple of increments (ms); events: per market event id; groups: {event: group}
+    dtvecs, events, groups, ep = args[:4]
+    starts = args[4] if len(args) > 4 else tuple(range(len(dtvecs)))
+    # dtvecs: per market tuple of increments (ms); starts: per market offset of its first update (a market whose
+    # file name sorts first may start later); events: per market event id; groups: {event: group}
     markets = []
     for i, dts in enumerate(dtvecs):
-        spec = simx.MarketSpec(market_id="1.10000000%d" % (i + 1), event_id=events[i], book0=L.BOOK0, t0=simx.T0 + i)
+        spec = simx.MarketSpec(market_id="1.10000000%d" % (i + 1), event_id=events[i], book0=L.BOOK0, t0=simx.T0 + starts[i])
         ticks = [[dt, ["Q"]] for dt in dts]
         markets.append((spec, ticks))
     h = Hooks()
@@ -51,7 +53,7 @@ def _merge_one(args):
     w.run()
     out = []
     counts = {"clause:C14.a": 0, "clause:C14.b": 0, "clause:C14.c": 0, "clause:C14.d": 0, "equal_pt_across_markets": 0, "equal_pt_within_market": 0, "merged_groups": 0}
-    case = dict(dtvecs=[list(d) for d in dtvecs], events=list(events), groups=groups, event_processing=ep)
+    case = dict(dtvecs=[list(d) for d in dtvecs], events=list(events), groups=groups, event_processing=ep, starts=list(starts))
     key = lambda pred: (ep, "none", pred)
     if w.run_exception is not None:
         out.append(core.v("C14.a", key("exception"), "run raised %r" % (w.run_exception,), case))
@@ -262,6 +264,20 @@ def run(tier):
                 for events, groups in ((("e1", "e1", "e1"), None), (("e1", "e2", "e1"), None), (("e1", "e2", "e2"), None), (("e1", "e2", "e3"), {"e3": "e1"}), (("e2", "e1", "e2"), None)):
                     jobs.append(((a, b, c), events, groups, True))
                 jobs.append(((a, b, c), ("e1", "e1", "e2"), None, False))
+    # markets starting in every order (the first-named market later than / together with the others)
+    base_jobs = list(jobs)
+    for j in base_jobs:
+        n = len(j[0])
+        if n == 1:
+            continue
+        for starts in itertools.product((0, 2, 5), repeat=n):
+            if starts == tuple(sorted(starts)) and len(set(starts)) == n:
+                continue  # increasing start order is what the default already covers
+            if n == 3 and (len(j[0][0]) > 1 or len(j[0][2]) > 1) and not thorough:
+                continue
+            if n == 2 and len(j[0][0]) + len(j[0][1]) > 3 and not thorough:
+                continue
+            jobs.append(j + (starts,))
     for r in core.pmap(_merge_one, jobs):
         rep.add_violations(r["violations"])
         rep.merge_counts(r["counts"])
@@ -311,7 +327,7 @@ def run(tier):
 def replay(rep):
     c = rep["case"]
     if "dtvecs" in c:
-        r = _merge_one((tuple(tuple(d) for d in c["dtvecs"]), tuple(c["events"]), c["groups"], c["event_processing"]))
+        r = _merge_one((tuple(tuple(d) for d in c["dtvecs"]), tuple(c["events"]), c["groups"], c["event_processing"], tuple(c.get("starts") or range(len(c["dtvecs"])))))
     elif "seq" in c:
         r = _filter_one(([tuple(x) for x in c["seq"]], c["inplay"], c["seconds_to_start"], c["max_inplay_seconds"]))
     elif "raise_at" in c:
